@@ -139,6 +139,7 @@ fn alpha(cfg: &Cfg) -> Vec<Op> {
         // text followed by enough blanks to cross the right margin: the logical line ends in
         // rows of nothing but spaces (what a `printf '%-81s'` leaves behind)
         Op::text(&format!("k{}", " ".repeat(cfg.cols))),
+        Op::text(&format!("{}\r\nz", " ".repeat(cfg.cols + 2))),
         c(crlf()),
         c(lfs(3)),
         c(lfs(12)),
